@@ -175,8 +175,9 @@ class Publish:
 
         self.data = data
 
-        # XXX: Use the MutableFileVersion instead.
-        self.datalength = self._node.get_size()
+        # the size of the version that is being updated (the node's cached
+        # size is not refreshed by modify() and update())
+        self.datalength = version[4]
         if data.get_size() > self.datalength:
             self.datalength = data.get_size()
 
